@@ -170,6 +170,22 @@ func (w *World) collectFuncs() {
 			}
 		}
 	}
+	// instantiations of the module's generic functions are not package members: they are found at their call sites
+	for i := 0; i < len(w.funcsMod); i++ {
+		for _, b := range w.funcsMod[i].Blocks {
+			for _, in := range b.Instrs {
+				ci, ok := in.(ssa.CallInstruction)
+				if !ok {
+					continue
+				}
+				fn := ci.Common().StaticCallee()
+				if fn == nil || fn.Origin() == nil || fn.Origin() == fn || !seen[fn.Origin()] {
+					continue
+				}
+				add(fn)
+			}
+		}
+	}
 	sort.Slice(w.funcsMod, func(i, j int) bool { return w.funcsMod[i].String() < w.funcsMod[j].String() })
 	w.NFuncs = len(w.funcsMod)
 }
@@ -192,6 +208,9 @@ func (w *World) isProdFunc(f *ssa.Function) bool {
 	pkg := f.Pkg
 	if pkg == nil && f.Parent() != nil {
 		pkg = f.Parent().Pkg
+	}
+	if pkg == nil && f.Origin() != nil {
+		pkg = f.Origin().Pkg // an instantiation of a generic function of the module
 	}
 	if pkg == nil || !inProdScope(pkg.Pkg.Path()) {
 		return false
